@@ -122,6 +122,7 @@ def listed_of(items, kind):
                 dup = True
             seen.add(d["name"])
             out.append({"name": chars(d["name"]), "nosel": "\\Noselect" in d["attrs"],
+                        "subscribed": "\\Subscribed" in d["attrs"],
                         "haschildren": "\\HasChildren" in d["attrs"],
                         "hasnochildren": "\\HasNoChildren" in d["attrs"]})
     return out, dup
@@ -129,7 +130,7 @@ def listed_of(items, kind):
 
 def blank(act):
     return {"act": act, "status": "OK", "name": [], "name2": [], "ref": [], "pat": [], "pats": [[]], "lsub": False,
-            "listed": [], "dup": False, "probe": False, "nm": {"slashes": 0, "comps": []},
+            "listed": [], "dup": False, "sel": "", "ret": "", "probe": False, "nm": {"slashes": 0, "comps": []},
             "outside_changed": False, "leaked": False, "slot": "", "enc": "", "text": ""}
 
 
@@ -141,7 +142,7 @@ async def run_history(w: NsWorld, steps, events):
     for st in steps:
         act = st["act"]
         ev = blank(act)
-        for k in ("name", "name2", "ref", "pat", "pats", "lsub"):
+        for k in ("name", "name2", "ref", "pat", "pats", "lsub", "sel", "ret"):
             if k in st:
                 ev[k] = st[k]
         if act in ("List", "Lsub"):
@@ -165,7 +166,8 @@ async def run_history(w: NsWorld, steps, events):
                 ptxt = b"(" + b" ".join(render_name(unchars(p)) for p in pats) + b")"
             else:
                 ptxt = render_name(unchars(pats[0]))
-            cmd = (b"LSUB " if act == "Lsub" else b"LIST ") + render_name(unchars(st["ref"])) + b" " + ptxt
+            cmd = (b"LSUB " if act == "Lsub" else b"LIST ") + (b"(SUBSCRIBED) " if ev["sel"] == "SUBSCRIBED" else b"") + \
+                render_name(unchars(st["ref"])) + b" " + ptxt + (b" RETURN (SUBSCRIBED)" if ev["ret"] == "SUBSCRIBED" else b"")
         res = await w.cmd("A", cmd, settle=0.02)
         ev["status"] = res.status if res.status in ("OK", "NO", "BAD") else "NONE"
         ev["text"] = (res.tagged or {}).get("text", "")[:80]
